@@ -79,27 +79,37 @@ func DigestXapTar(r io.Reader, hash crypto.Hash, doPageHash bool) (*XapDigest, e
 }
 
 func removeSignature(cd []byte) []byte {
-	size := len(cd)
-	if size < 10 {
-		return cd
+	frame := SignatureFrameSize(bytes.NewReader(cd), int64(len(cd)))
+	return cd[:int64(len(cd))-frame]
+}
+
+// SignatureFrameSize returns the length of the signature frame (header,
+// PKCS#7 blob and trailer) that ends at offset size of r, or 0 if the bytes
+// there are not a complete frame whose header and trailer agree. This is the
+// test Verify applies before it looks at the blob.
+func SignatureFrameSize(r io.ReaderAt, size int64) int64 {
+	if size < 18 {
+		return 0
 	}
 	var tr xapTrailer
-	_ = binary.Read(bytes.NewReader(cd[size-10:size]), binary.LittleEndian, &tr)
-	if tr.Magic == trailerMagic {
-		size -= int(tr.TrailerSize) + 10
-		if size < 0 || tr.TrailerSize < 8 {
-			return cd
-		}
-		// only a frame that Verify would recognise is a signature: the header in
-		// front of the blob must carry the matching size
-		var hdr xapHeader
-		_ = binary.Read(bytes.NewReader(cd[size:size+8]), binary.LittleEndian, &hdr)
-		if hdr.SignatureSize != tr.TrailerSize-8 {
-			return cd
-		}
-		return cd[:size]
+	if err := binary.Read(io.NewSectionReader(r, size-10, 10), binary.LittleEndian, &tr); err != nil {
+		return 0
 	}
-	return cd
+	if tr.Magic != trailerMagic || tr.TrailerSize < 8 {
+		return 0
+	}
+	frame := int64(tr.TrailerSize) + 10
+	if frame > size {
+		return 0
+	}
+	var hdr xapHeader
+	if err := binary.Read(io.NewSectionReader(r, size-frame, 8), binary.LittleEndian, &hdr); err != nil {
+		return 0
+	}
+	if hdr.SignatureSize != tr.TrailerSize-8 {
+		return 0
+	}
+	return frame
 }
 
 func (d *XapDigest) Sign(ctx context.Context, cert *certloader.Certificate, params *authenticode.OpusParams) (*binpatch.PatchSet, *pkcs9.TimestampedSignature, error) {
